@@ -394,7 +394,8 @@ def _sc_bin(tr, k, x, y):
         q = a / b
         fl = math.floor(q)
         eq_ = (x.e + abs(float(q)) * y.e) / max(fb - y.e, 1e-300) if (x.e or y.e) else 0.0
-        if x.e or y.e or not both:
+        # (sympy rewrites Mod(x, m) with a numeric m through x/m: exact only for a power of two)
+        if x.e or y.e or not (both and _pow2(b)):
             dist = min(q - fl, fl + 1 - q) if q != fl else 0
             if dist <= 4 * eq_ + 1e-9:
                 tr.fragile = True
@@ -895,6 +896,20 @@ def normalise_env(env):
 # ---------------------------------------------------------------------------------------------
 
 PF27_LISTED = [False]     # set by run(): is PF-27 an open known finding (then its class is not judged)
+PF29_LISTED = [False]
+
+
+def nested_sum_in_minmax(t) -> bool:
+    """class of PF-29: a Min/Max with an argument that contains a Sum inside the body of another Sum"""
+    def nested(u, inside):
+        if u[0] == 'sum':
+            if inside:
+                return True
+            return nested(u[4], True) or nested(u[2], inside) or nested(u[3], inside)
+        return any(isinstance(x, tuple) and nested(x, inside) for x in u[1:])
+    if t[0] in ('min', 'max') and (nested(t[1], False) or nested(t[2], False)):
+        return True
+    return any(isinstance(x, tuple) and nested_sum_in_minmax(x) for x in t[1:])
 
 
 class Case:
@@ -1012,6 +1027,9 @@ def verdict(ctx, case: Case, ans):
         return None
     if getattr(case, 'dead_error', False):
         ctx.count(fam + ':undefined-body-of-empty-sum:' + exc)
+        return None
+    if PF29_LISTED[0] and exc == 'ValueError' and 'not comparable' in impl[2] and nested_sum_in_minmax(case.tree):
+        ctx.count(fam + ':suppressed-known-PF-29')
         return None
     return ('violation', 'raised %s (%s) where the written formula has the value %s'
             % (exc, impl[2][:120], _show(parse_val(ans[1]))))
@@ -1368,6 +1386,11 @@ def mk_vector(trees, env, extra):
     if how == 'item':
         tree = trees[extra['item']]
         c = Case('vector', tree, env, None, True, what='ExpressionVector item %d' % extra['item'], extra=dict(extra, kind='vector', trees=[tree_to_json(t) for t in trees]))
+        try:
+            tr = Track(True)
+            ref_eval(tr, tuple(['vecx'] + list(trees)), env_ref(tr, env))
+        except RefError:
+            c.lenient = True          # a sibling entry has no value: refusing the whole vector is an accepted answer
     else:
         c = Case('vector', tuple(['vecx'] + list(trees)), env, None, True, what='ExpressionVector %s' % how,
                  extra=dict(extra, kind='vector', trees=[tree_to_json(t) for t in trees]))
@@ -2081,8 +2104,14 @@ def rebuild_case(rec):
     return None
 
 
+def load_known(ctx):
+    PF27_LISTED[0] = any(kf.get('finding') == 'PF-27' for kf in ctx.findings.for_property('C12'))
+    PF29_LISTED[0] = any(kf.get('finding') == 'PF-29' for kf in ctx.findings.for_property('C12'))
+
+
 def replay(ctx: core.Ctx, rec: dict, from_corpus: bool = False) -> bool:
     core.ensure_repo_on_path()
+    load_known(ctx)
     kind = rec.get('kind')
     before = len(ctx.violations)
     if kind == 'compare':
@@ -2126,6 +2155,24 @@ def known_pf27(ctx):
         return
 
 
+def known_pf29(ctx):
+    """PF-29 (open): Min/Max over a nested Sum.  Once substitution leaves the nested Sum without free names sympy's
+    Min/Max cannot compare it and `evaluate_symbolic` raises ValueError, although the formula evaluates at once."""
+    numpy, sympy, ES, EV, Expression, TimeType = _imports()
+    for kf in ctx.findings.for_property('C12'):
+        if kf.get('finding') != 'PF-29':
+            continue
+        w = kf['witness']
+        scope = {k: (float(F(v)) if '/' in str(v) or '.' in str(v) else int(v)) for k, v in w['scope'].items()}
+        at_once = outcome(lambda: ES(w['expression']).evaluate_in_scope(scope))
+        first = outcome(lambda: ES(w['expression']).evaluate_symbolic(scope).evaluate_in_scope({}))
+        ctx.case('known-finding PF-29 ' + w['expression'], nontrivial=False)
+        if at_once[0] == 'ok' and first[0] == 'exc':
+            ctx.known_finding('PF-29', '%s with %s evaluates to %s at once but evaluate_symbolic with the same values raises %s (%s)'
+                              % (w['expression'], w['scope'], at_once[1], first[1], first[2][:80]))
+        return
+
+
 def run(ctx: core.Ctx):
     ctx.rule = ('random formula trees over + - * / integer powers Min Max floor ceiling Abs Mod comparisons & | ~ Piecewise '
                 'indexing Broadcast Sum (depth <= 4 quick / 6 thorough), printed as qupulse strings (and built as sympy objects), '
@@ -2142,11 +2189,12 @@ def run(ctx: core.Ctx):
         'IEEE-754: dyadic stream compared exactly, general stream within a running-error-analysis tolerance (generator aid in harness/c12.py)',
         'transcendental functions are compared with python math at 1e-12 relative in the harness only (test level, not in the Lean model)',
     ]
-    PF27_LISTED[0] = any(kf.get('finding') == 'PF-27' for kf in ctx.findings.for_property('C12'))
+    load_known(ctx)
     for rec in ctx.corpus():
         replay(ctx, rec, from_corpus=True)
         ctx.corpus_replayed += 1
     known_pf27(ctx)
+    known_pf29(ctx)
     import os
     import sys
     import time
